@@ -53,6 +53,8 @@ SCOPE = {"quick": "all datasets n<=3 m<=2 (701) + 400 sampled n<=5 m<=4; 14 sche
                      "schemes; 20000 sampled n<=6 m<=5 x 29 schemes; both flag values"}
 EXHAUSTIVE = {"quick": False, "thorough": False}
 CHUNK = 4
+# every 4th case is run a second time with its datasets reached through a history (vlib.t2run._with_histories)
+VIA_EVERY = {"quick": 4, "thorough": 4}
 
 
 def _typed_twin_cases(si):
